@@ -141,6 +141,14 @@ def proof_obligations(prop_id, modules=None):
             res["log"] += text[-2000:]
         else:
             res["discharged"] += len(names)
+        # thorough tier: the compiled module is re-checked by Lean's independent checker
+        if os.environ.get("VERIF_TIER") == "thorough":
+            with Lock("lake"):
+                rc, out, err = run(["lake", "env", "leanchecker", mod], cwd=LEAN, timeout=3600)
+            res.setdefault("leanchecker", []).append({"module": mod, "rc": rc})
+            if rc != 0:
+                res["ok"] = False
+                res["broken"].append("leanchecker rejected %s: %s" % (mod, (out + err)[-300:]))
     res["wall_s"] = time.time() - t0
     return res
 
@@ -292,6 +300,7 @@ def finish(prop_id, tier, t0, proof, tie, extra_assumptions=None):
         "checker_cmd": "cd /verif/lean && lake build EduceModel.Props.%s && lake env lean <#print axioms on each theorem> (vlib/common.py: proof_obligations)" % prop_id,
         "trusted_base": TRUSTED_BASE,
         "theorems": proof["theorems"],
+        "leanchecker": proof.get("leanchecker", "quick tier: not run (thorough tier re-checks the compiled module with leanchecker)"),
         "evaluations": tie.get("evaluations", 0),
         "distinct_nontrivial": tie.get("distinct_nontrivial", 0),
         "rule": tie.get("rule", ""),
